@@ -142,12 +142,13 @@ class Pool:
 # replay (plain interpreter, public API)
 # ---------------------------------------------------------------------------------------
 
-def replay_inline(cell, args, lex=False, bump=False):
+def replay_inline(cell, args, lex=False, bump=False, indent=False):
     """Run the harness on concrete arguments in *this* interpreter (must be CrossHair-free)."""
     from .build import Ctx, conc
     Ctx.reset(replay=True)
     Ctx.lex = lex
     Ctx.bump = bump
+    Ctx.indent = indent
     fn = cell.harness_fn()
     err = None
     ok = None
@@ -406,6 +407,15 @@ def run_property(pid, tier='quick', seed=0, jobs=None, only=None, verbose=False,
                         rep['info']['sig'] = 'id-variant:' + str(rep['info'].get('sig', 'unclassified'))
                 # the same scenario on other objects with much later message IDs, then once more as it
                 # was: what happened to other objects earlier in the process must not matter
+                # the same documents pretty-printed (whitespace text between elements), as many systems send them.
+                # Not for the roStorySend payload cells: their oracle fixes the text and tail of every spliced
+                # child exactly, and what the whitespace around <storyBody> should become is not stated by C04
+                if rep['ok'] and c.harness not in ('h_payload:send_cell',):
+                    rep6 = replay_inline(c, ex, indent=True)
+                    anchors['indented_variants'] = anchors.get('indented_variants', 0) + 1
+                    if rep6['ok'] is False:
+                        rep = rep6
+                        rep['info']['sig'] = 'indented-documents:' + str(rep['info'].get('sig', 'unclassified'))
                 if rep['ok']:
                     replay_inline(c, ex, bump=True)     # history only: its own verdict is not used
                     rep4 = replay_inline(c, ex)
@@ -485,6 +495,7 @@ def run_property(pid, tier='quick', seed=0, jobs=None, only=None, verbose=False,
                         'lexical_variants': anchors.get('lexical_variants', 0),
                         'repeat_runs': anchors.get('repeat_runs', 0),
                         'id_variants': anchors.get('id_variants', 0),
+                        'indented_variants': anchors.get('indented_variants', 0),
                         'lexical_variant_errors': anchors.get('lexical_skipped', [])[:20],
                         'failed': anchors['failed'][:20]},
             'known_findings': knowns,
